@@ -905,21 +905,21 @@ pub fn scenarios(prop: &str, tier: &str) -> Vec<Scenario> {
                     if !thorough && h == 2 && start != "begin" {
                         continue;
                     }
-                    let mut s = base(&format!("h{}-{}-1w2", h, start));
-                    s.pre = (0..h).map(|_| fs("h", 0, "")).collect();
-                    s.writers = vec![vec![fs("a", 0, ""), fs("a", 0, "ephemeral")]];
-                    s.readers = vec![rd("on", tail, last, None, None)];
-                    v.push(s);
+                    // one writer, two appends: every order of stored / ephemeral
+                    for (pat, ttls) in [("de", ["", "ephemeral"]), ("ed", ["ephemeral", ""]), ("ee", ["ephemeral", "ephemeral"])] {
+                        if pat == "ee" && !(thorough || (h == 1 && start == "begin")) {
+                            continue;
+                        }
+                        if pat == "ed" && !thorough && h == 2 {
+                            continue;
+                        }
+                        let mut s = base(&if pat == "de" { format!("h{}-{}-1w2", h, start) } else { format!("h{}-{}-1w2-{}", h, start, pat) });
+                        s.pre = (0..h).map(|_| fs("h", 0, "")).collect();
+                        s.writers = vec![vec![fs("a", 0, ttls[0]), fs("a", 0, ttls[1])]];
+                        s.readers = vec![rd("on", tail, last, None, None)];
+                        v.push(s);
+                    }
                 }
-            }
-            // an ephemeral frame appended during the replay, followed by a stored one: the scan may
-            // pick up the stored one, the ephemeral one only ever arrives through the subscription
-            for (start, last) in [("begin", None), ("lastid", Some(0usize))] {
-                let mut s = base(&format!("h1-{}-eph-first", start));
-                s.pre = vec![fs("h", 0, "")];
-                s.writers = vec![vec![fs("a", 0, "ephemeral"), fs("a", 0, "")]];
-                s.readers = vec![rd("on", false, last, None, None)];
-                v.push(s);
             }
             // scoped reader, writers in both contexts
             let mut s = base("h1-ctx-2w1");
@@ -995,6 +995,19 @@ pub fn scenarios(prop: &str, tier: &str) -> Vec<Scenario> {
                 s.writers = vec![vec![fs("a", 0, ""), fs("a", 0, "")]];
                 s.readers = vec![rd(follow, false, None, Some(2), None)];
                 s.clock_jump = true;
+                s.probe = true;
+                if !thorough {
+                    s.bound = Some(1);
+                }
+                v.push(s);
+            }
+            // ephemeral frames count towards a following limit like any delivered frame
+            for (nm, n, follow) in [("n2-eph-on", 2usize, "on"), ("n3-eph-hb", 3usize, "hb")] {
+                let mut s = base(nm);
+                s.pre = vec![fs("h", 0, "")];
+                s.writers = vec![vec![fs("a", 0, "ephemeral"), fs("a", 0, ""), fs("a", 0, "ephemeral")]];
+                s.readers = vec![rd(follow, false, None, Some(n), None)];
+                s.max_ticks = if follow == "hb" { 2 } else { 0 };
                 s.probe = true;
                 if !thorough {
                     s.bound = Some(1);
